@@ -100,7 +100,19 @@ def finish(ctx, explanation, write=True, quiet=False):
         same = [f for f in viol if parts(f.full_key()) == pk]
         if len(same) == 1 and id(same[0]) not in {id(x) for x in moved.values()}:
             moved[k] = same[0]
+    # the same source line seen twice - once inside a caller the helper was expanded into, once in the helper itself - is one site
+    def line_of(f):
+        return f.site.split(' ')[0]
+    for f in list(viol):
+        pf = parts(f.full_key())
+        if pf and any(parts(g.full_key()) == pf and line_of(g) == line_of(f) for g in kn):
+            viol.remove(f)
+            kn.append(f)
+            twin = [g for g in kn if parts(g.full_key()) == pf and g.full_key() in known][0]
+            known[f.full_key()] = dict(known[twin.full_key()], what='(same call site as %s, seen through an expanded helper) %s' % (twin.full_key().split('|')[1], known[twin.full_key()].get('what', '')))
     for k, f in moved.items():
+        if f not in viol:
+            continue
         viol.remove(f)
         kn.append(f)
         known[f.full_key()] = dict(known[k], what='(the construct listed as %s is now found in %s) %s' % (k, f.full_key().split('|')[1], known[k].get('what', '')))
